@@ -12,6 +12,7 @@ import (
 	"runtime"
 	"sort"
 	"strings"
+	"sync/atomic"
 	"testing"
 	"testing/synctest"
 	"time"
@@ -28,6 +29,63 @@ const (
 	responseBound = 60 * time.Second
 	probeIPBase   = 200
 )
+
+// Hang watchdog (real time, outside any bubble). A handler goroutine that
+// blocks on a lock forever is not "durably blocked" for synctest, so
+// synctest.Wait() never returns and not even fake time can advance: the
+// driver stops making progress. After hangAfter of real time without progress
+// while a run is active the watchdog writes the witness (plan up to the
+// current event) and ends the process with exit code 3; the runner confirms it
+// by replay (the fresh process must end the same way).
+var (
+	progress  atomic.Uint64
+	runActive atomic.Bool
+	hangInfo  atomic.Pointer[hangWitness]
+)
+
+type hangWitness struct {
+	prop string
+	plan *Plan
+	ev   int
+	desc string
+	op   string
+}
+
+const hangAfter = 25 * time.Second
+
+func init() {
+	go func() {
+		last, since := uint64(0), time.Now()
+		for {
+			time.Sleep(time.Second)
+			p := progress.Load()
+			if !runActive.Load() || p != last {
+				last, since = p, time.Now()
+				continue
+			}
+			if time.Since(since) < hangAfter {
+				continue
+			}
+			hw := hangInfo.Load()
+			fmt.Printf("VERIF-HANG: no progress for %v of real time\n", hangAfter)
+			if hw != nil {
+				pl := *hw.plan
+				if hw.ev+1 <= len(pl.Events) {
+					pl.Events = pl.Events[:hw.ev+1]
+				}
+				pb, _ := json.Marshal(pl)
+				v := verifh.Violation{Property: hw.prop, Clause: "bounded-response", Op: hw.op, Witness: "server-blocked-forever", Detail: "the service stopped making progress (goroutines blocked on a lock; neither a response nor a timeout can ever happen) while serving " + hw.desc}
+				ff := verifh.FailFile{Property: hw.prop, World: "C", Signature: v.Signature(), Violation: v, Plan: pb, Crash: true}
+				b, _ := json.Marshal(ff)
+				if fp := os.Getenv("VERIF_FAIL"); fp != "" {
+					_ = os.WriteFile(fp, b, 0o644)
+					_ = os.Remove(fp + ".pending")
+				}
+			}
+			os.Exit(3)
+		}
+	}()
+}
 
 func init() {
 	// fasthttp starts a never-ending date refresher on the first response it
@@ -428,6 +486,7 @@ func (w *world) deliver(cc *clientConn, s *sent, wire []byte, cuts []int, gaps [
 
 // harvest parses whatever the server wrote on cc and judges answered requests.
 func (w *world) harvest(cc *clientConn) {
+	progress.Add(1)
 	for {
 		cc.mu.Lock()
 		data := cc.rbuf.Bytes()
@@ -847,6 +906,14 @@ func (w *world) run() {
 		}
 		ev := &w.plan.Events[i]
 		w.evIdx = i
+		progress.Add(1)
+		if w.prop == "C19" {
+			op := "-"
+			if ev.Req != nil {
+				op = strings.SplitN(ev.Req.Path, "?", 2)[0]
+			}
+			hangInfo.Store(&hangWitness{prop: w.prop, plan: w.plan, ev: i, desc: fmt.Sprintf("event %d (%s): %s", i, ev.Kind, reqDesc(ev.Req)), op: op})
+		}
 		if w.prop == "C19" {
 			w.writePending(ev)
 		}
@@ -879,6 +946,18 @@ func (w *world) run() {
 			if w.viol == nil && !cc.closed && !cc.readEnded() {
 				verifh.Count("probe.generate-then-validate-chain", 1)
 				w.doReq(ev, cc, ev.PReq, "main", nil, nil, 0, true)
+			}
+		case "twin":
+			cc := w.usable(ev.Conn, ev.IP, false)
+			verifh.Count("probe.concatenation-twin-requests", 1)
+			w.doReq(ev, cc, ev.Req, "main", nil, nil, 0, true)
+			if w.viol == nil {
+				if cc.closed || cc.readEnded() || cc.writeFailed() || cc.dirty {
+					cc = w.open(ev.Conn, ev.IP)
+				}
+				ev2 := *ev
+				ev2.Req = ev.PReq
+				w.doReq(&ev2, cc, ev.PReq, "main", nil, nil, 0, true)
 			}
 		case "sleep":
 			if ev.SleepMs >= 30000 {
@@ -1017,6 +1096,15 @@ func (w *world) run() {
 			if ev.N > 50 {
 				verifh.Count("probe.MaxConnsPerIP-exceeded", 1)
 			}
+			// while one address holds all these connections open, a client from another
+			// address must still be served
+			if w.prop == "C19" && w.viol == nil {
+				verifh.Count("probe.probe-while-flood-connections-are-open", 1)
+				pr := Req{Method: "GET", Path: "/ocra/suites", Class: "good"}
+				pc := w.open(4998, 240+ev.IP)
+				w.doReq(ev, pc, &pr, "probe-fresh-conn", nil, nil, 0, false)
+				pc.close()
+			}
 			for _, c := range cs {
 				c.dirty = true
 				c.close()
@@ -1087,6 +1175,8 @@ func Run(t *testing.T, p *Plan, logOn bool) (v *verifh.Violation, info *runInfo)
 	// run's own history, so a violation that needs pooled state replays
 	runtime.GC()
 	runtime.GC()
+	runActive.Store(true)
+	defer runActive.Store(false)
 	func() {
 		defer func() {
 			if r := recover(); r != nil {
